@@ -173,8 +173,20 @@ class FixRun:
 # --------------------------------------------------------------------------- token sequence comparison
 
 
+def coalesce_blanks(tokens):
+    """Adjacent whitespace leaves (a fix may leave `' '`, `' '` side by side) spell one whitespace token; they are not
+    the 'tokens' the property is about, so both sides are compared with such runs joined."""
+    out = []
+    for t in tokens:
+        if out and t[1] == "whitespace" and out[-1][1] == "whitespace":
+            out[-1] = (out[-1][0] + t[0], "whitespace", out[-1][2])
+        else:
+            out.append(t)
+    return out
+
+
 def seq_diff(tree_toks, relexed):
-    """First disagreement between tree leaves and relexed tokens.
+    """First disagreement between tree leaves and relexed tokens (runs of whitespace leaves joined).
 
     Returns None, or (kind, tree_leaves_involved, relexed_tokens_involved) where kind is
       merge  - several leaves are lexed as fewer tokens (boundaries lost)
@@ -183,6 +195,7 @@ def seq_diff(tree_toks, relexed):
       retype - same boundaries, another coarse kind (whitespace/newline/comment/code)
       text   - the two sequences do not even spell the same text
     """
+    tree_toks, relexed = coalesce_blanks(tree_toks), coalesce_blanks(relexed)
     n = min(len(tree_toks), len(relexed))
     i = 0
     while i < n and tree_toks[i][0] == relexed[i][0]:
